@@ -218,7 +218,26 @@ def rgfa(draw, min_chroms=1, max_chroms=2, max_elements=5, max_ln=9, min_element
             for c in b.chroms
         ],
     }
+    if draw(st.integers(0, 5)) == 0:
+        # one-character segment names (a segment name is any non-blank string); a few of them at most
+        ids = sorted(g["nodes"])
+        letters = draw(st.permutations(["r", "e", "f", "c", "t", "S", "L", "x", "_"]))
+        k = draw(st.integers(1, min(3, len(ids))))
+        picked = draw(st.permutations(ids))[:k]
+        mapping = {old: new for old, new in zip(picked, letters) if new not in g["nodes"]}
+        g = rename_nodes(g, mapping)
     return g
+
+
+def rename_nodes(x, mapping):
+    """Renames segments everywhere in a generated graph description (ids occur as dict keys and as list items)."""
+    if isinstance(x, dict):
+        return {mapping.get(k, k) if isinstance(k, str) else k: rename_nodes(v, mapping) for k, v in x.items()}
+    if isinstance(x, (list, tuple)):
+        return type(x)(rename_nodes(v, mapping) for v in x)
+    if isinstance(x, str):
+        return mapping.get(x, x)
+    return x
 
 
 # ------------------------------------------------------------------------------------------
